@@ -37,7 +37,14 @@ func (c atUndoCfg) String() string {
 	return fmt.Sprintf("ser=%s|comp=%s|validate=%v|onlycare=%v", c.Serializer, c.Compress, c.Validation, c.OnlyCare)
 }
 
+type worldT = world.World
+type dbT = world.DB
+
 func newATEnv(r *vc.Run, name string, cfg atUndoCfg, race bool, driver string) (*atEnv, error) {
+	return newATEnvOpts(r, name, cfg, race, driver, nil)
+}
+
+func newATEnvOpts(r *vc.Run, name string, cfg atUndoCfg, race bool, driver string, replace map[string]string) (*atEnv, error) {
 	w, err := world.New(r)
 	if err != nil {
 		return nil, err
@@ -47,7 +54,7 @@ func newATEnv(r *vc.Run, name string, cfg atUndoCfg, race bool, driver string) (
 	if driver == "" {
 		driver = "seata-at-mysql"
 	}
-	ch, err := w.StartClient(name, race, world.InitArg{DBs: []world.DBSpec{
+	ch, err := w.StartClient(name, race, world.InitArg{Replace: replace, DBs: []world.DBSpec{
 		{Name: "at", Driver: driver, DSN: db.DSN("app", ""), MaxOpen: 8, Class: "proxied"},
 		{Name: "plain", Driver: "mysql", DSN: db.DSN("foreign", ""), MaxOpen: 4},
 	}}, nil)
